@@ -103,7 +103,8 @@ example : writerOrder 0 { mins := [none, some (-2), some (-5)], maxs := [none, s
 
 `Chunk` = one chunk's column index as the `ColumnIndex` interface shows it (null-page flags, bounds, its own
 ASCENDING / DESCENDING answers). MIRRORS (multi_row_group.go): `mapPage`/`mapPageGo` (page lookup through the
-cumulative offsets), `multiView`, `multiViewNulls`, `multiIsAscending`, `multiIsDescending`, `findMultiGo`.
+cumulative offsets), `multiView`, `multiViewNulls`, `multiIsAscending`, `multiIsDescending` (the seam loops of repair
+5dcb05b; `…_before_fix` = the adjacent-pair loops they replaced), `findMultiGo`.
 SPEC: `concat`, `concatNulls` (list concatenation), `Ascending`. -/
 
 /-- MIRROR = SPEC: reading the multi index page by page through `mapPageIndex` gives exactly the concatenation
@@ -211,23 +212,36 @@ example :
         { nulls := [false], ix := { mins := [some 10], maxs := [some 12] }, asc := true, desc := false } ]
     findMultiGo false 0 cs 11 = 2 := by decide
 
-/-- OBSERVATION (outside C06: `Find` never reads the DESCENDING answer): `multiColumnIndex.IsDescending` compares the
-    FIRST page of a chunk with the LAST page of the next one, so (10,12) (1,2) | (8,9) (0,0) is claimed descending
-    although the mins 10, 1, 8, 0 are not. -/
-theorem multiIsDescending_unsound :
+/-- REGRESSION FACT (before repair 5dcb05b; outside C06: `Find` never reads the DESCENDING answer): the old
+    `multiColumnIndex.IsDescending` compared the FIRST page of a chunk with the LAST page of the next one, so
+    (10,12) (1,2) | (8,9) (0,0) was claimed descending although the mins 10, 1, 8, 0 are not. The repaired loop
+    (min of the last non-null page seen so far against the max of the next first one) answers false. -/
+theorem multiIsDescending_unsound_before_fix :
     let cs : List Chunk :=
       [ { nulls := [false, false], ix := { mins := [some 10, some 1], maxs := [some 12, some 2] }, asc := false, desc := true },
         { nulls := [false, false], ix := { mins := [some 8, some 0], maxs := [some 9, some 0] }, asc := false, desc := true } ]
-    multiIsDescending 0 cs = true ∧ isDesc ((concat cs).mins.map (stored 0)) = false := by decide
+    multiIsDescending_before_fix 0 cs = true ∧ isDesc ((concat cs).mins.map (stored 0)) = false ∧
+    multiIsDescending 0 cs = false := by decide
 
-/-- OBSERVATION: only ADJACENT chunks are compared, and a chunk of null pages only is skipped on both sides, so
-    (5,9) (10,12) | null null | (1,2) (3,4) is claimed ascending. `Find` is safe only through its null-page guard. -/
-theorem multiIsAscending_blind_across_null_chunk :
+/-- REGRESSION FACT (before repair 5dcb05b): only ADJACENT chunks were compared and a chunk of null pages only was
+    skipped on both sides, so (5,9) (10,12) | null null | (1,2) (3,4) was claimed ascending (`Find` was safe only
+    through its null-page guard). The repaired loop carries the bound 12 across the null chunk and answers false. -/
+theorem multiIsAscending_blind_across_null_chunk_before_fix :
     let cs : List Chunk :=
       [ { nulls := [false, false], ix := { mins := [some 5, some 10], maxs := [some 9, some 12] }, asc := true, desc := false },
         { nulls := [true, true], ix := { mins := [none, none], maxs := [none, none] }, asc := true, desc := false },
         { nulls := [false, false], ix := { mins := [some 1, some 3], maxs := [some 2, some 4] }, asc := true, desc := false } ]
-    multiIsAscending 0 cs = true ∧ findMultiGo false 0 cs 3 = 5 ∧ findMultiGo true 0 cs 3 = 5 := by decide
+    multiIsAscending_before_fix 0 cs = true ∧ multiIsAscending 0 cs = false ∧
+    findMultiGo false 0 cs 3 = 5 ∧ findMultiGo true 0 cs 3 = 5 := by decide
+
+/-- the repaired loops still accept what lines up: descending chunks (12,10) (9,8) | null | (7,7) (2,0) with a
+    null chunk in between, and the ascending `mDisjoint` -/
+example :
+    let cs : List Chunk :=
+      [ { nulls := [false, false], ix := { mins := [some 10, some 8], maxs := [some 12, some 9] }, asc := false, desc := true },
+        { nulls := [true], ix := { mins := [none], maxs := [none] }, asc := true, desc := true },
+        { nulls := [false, false], ix := { mins := [some 7, some 0], maxs := [some 7, some 2] }, asc := false, desc := true } ]
+    multiIsDescending 0 cs = true ∧ multiIsAscending 0 mDisjoint = true := by decide
 
 /-! ## C06 on the VALUES of the pages (`SearchPages.lean`)
 
